@@ -163,6 +163,35 @@ def run(ctx, res):
         if ab[:4] != b':c:\x00' or (ab[4] << 8 | ab[5]) != len(code) or len(stream) != target or refstream.ref_decode(stream) != with_suffix(c, code):
             res.fail(key, 'the code area written for a compressed stream of %d bytes is not header + length + the complete stream '
                           '(stream bytes present: %d; decodes to the text: %s)' % (target, len(stream), refstream.ref_decode(stream) == with_suffix(c, code)), inp)
+    # histories: compress_code is a function of the text's current bytes — the same text twice with the first result scribbled over in
+    # between, a mutable text edited in place between two calls, different texts alternating
+    for h in range(ctx.budget(40, 400)):
+        t1 = lua_like(rng, rng.choice([5, 30, 120]))
+        t2 = lua_like(rng, rng.choice([5, 30, 120]))
+        res.evaluations += 1
+        res.count('compress-histories')
+        res.nontrivial.add(('hist', t1[:20], t2[:20]))
+        key = 'C05:history:%d' % h
+        try:
+            r1 = c.compress_code(t1)
+            want1 = bytes(r1)
+            if isinstance(r1, bytearray):
+                for j in range(len(r1)):
+                    r1[j] ^= 0x5a                        # the caller owns what it was handed
+            again = bytes(c.compress_code(t1))
+            buf = bytearray(t1)
+            first = bytes(c.compress_code(buf))
+            buf[:] = t2                                   # edited in place (same object)
+            second = bytes(c.compress_code(buf))
+            want2 = bytes(c.compress_code(bytes(t2)))
+            third = bytes(c.compress_code(t1))
+        except Exception as e:
+            res.fail(key, 'compress_code raised %r in a sequence of calls' % (e,), {'t1': hx(t1), 't2': hx(t2)})
+            continue
+        if again != want1 or first != want1 or third != want1:
+            res.fail(key, 'compressing the same text again gives a different stream (state kept between calls)', {'t1': hx(t1), 't2': hx(t2)})
+        elif second != want2 or refstream.ref_decode(second) != with_suffix(c, t2):
+            res.fail(key, 'a text buffer edited in place between two calls is compressed as its OLD content', {'t1': hx(t1), 't2': hx(t2)})
     # decoder vs reference decoder on generated well-formed streams
     for i in range(ctx.budget(400, 8000)):
         s, out = gen_wf_stream(rng, c)
